@@ -58,6 +58,9 @@ impl vstd::std_specs::ops::NotSpecImpl for Choice {
 pub fn err_text() -> (s: String) { unimplemented!() }
 /// debug view (E8): a failing debug assertion is a panic, i.e. an obligation `false`
 pub fn debug_assert_failed() requires false { }
+/// debug view (E8): the value of a debug-assertion condition that is outside the Verus subset
+#[verifier::external_body]
+pub fn debug_condition_unknown() -> (b: bool) { unimplemented!() }
 
 // ----- byte containers (E3) ---------------------------------------------------------------------
 pub broadcast axiom fn axiom_slice_len(s: &[u8]) ensures #[trigger] s@.len() <= isize::MAX;
